@@ -585,6 +585,8 @@ def ordering_of(fnode, name):
                 key = u(k.value.body) if isinstance(k.value, ast.Lambda) else u(k.value)
                 if isinstance(k.value, ast.Lambda) and k.value.args.args:
                     key = key.replace(k.value.args.args[0].arg, "_")
+                elif isinstance(k.value, ast.Call) and u(k.value.func) in ("itemgetter", "operator.itemgetter") and len(k.value.args) == 1:
+                    key = "_[%s]" % u(k.value.args[0])
             elif k.arg == "reverse":
                 rev = isinstance(k.value, ast.Constant) and k.value.value is True
         return key, rev
